@@ -542,6 +542,10 @@ class Exec(CallsMixin, Interp):
                 tag, payload = self.iter_source(it.seq)
                 return 'enum:' + tag, payload
             if it.tag == 'mapview':
+                if isinstance(it.map, PyObj):
+                    if it.map.tag == 'emptydict':
+                        return 'empty', None
+                    raise Unsupported('view of %r' % (it.map,))
                 return 'map:' + it.what, it.map
             if it.tag == 'pytuple':
                 return 'pytuple', it.items
